@@ -13,7 +13,33 @@ STAR_FILL = ["", "a", "main", "x.y", "a-b", "é", "a b", "foo", ".ftl", "ftl", "
 DIRS = ["d", "x", "y", "browser", "en-US", "zz", "a.b"]
 LOCALES = ["de", "en-US", "fr", "sr-Latn", "he", "id-ID", "zh-Hant-TW", "es-419", "yi", "pt-BR", "ast", "he-IL", "he-Hebr-IL", "id-Latn"]
 VARNAMES = ["l10n_base", "v", "w", "mozilla", "_x1", "Q"]
-ROOTS = ["/r", "/r/x", "/"]
+ROOTS = ["/r", "/r/x", "/", "/home/user/c++/app", "/builds/(work)/tree", "/src/l10n.central", "/a[b]/$x", "/r^/{q}", "/w|w/a?"]
+
+
+def alt_roots(root):
+    """roots 'just outside': what an unescaped regex metacharacter in the root would also accept"""
+    out = set()
+    if "." in root:
+        out.add(root.replace(".", "X"))
+    if "+" in root:
+        out.add(root.replace("++", "").replace("+", ""))
+        out.add(root.replace("c++", "ccc"))
+    if "(" in root:
+        out.add(root.replace("(", "").replace(")", ""))
+    if "[" in root:
+        out.add(root.replace("[b]", "b"))
+    if "$" in root:
+        out.add(root.replace("$", ""))
+    if "^" in root:
+        out.add(root.replace("^", ""))
+    if "|" in root:
+        out.add(root.split("|")[0])
+    if "?" in root:
+        out.add(root.replace("a?", ""))
+    if "{" in root:
+        out.add(root.replace("{q}", "q"))
+    out.discard(root)
+    return sorted(out)
 
 LEGACY = {"he": "iw", "id": "in", "yi": "ji"}
 
@@ -296,26 +322,50 @@ def gen_env(rng, side, names):
 
 
 def gen_pair(rng, rooted_ok=True):
-    """a pattern pair with the same wildcard sequence, environments, and the wildcard fills"""
+    """a pattern pair with the same wildcard sequence, environments, and the wildcard fills.
+    kinds: 's' one star in a segment, 'd' `**` directory, 'x' two adjacent stars at the start of a segment (or right
+    after a variable) followed by text, e.g. `**.ftl`, `{v}**-extra`: two single stars, NOT a directory wildcard"""
     nw = rng.choice([0, 1, 1, 2, 2, 2, 3])
     kinds = []
     for _ in range(nw):
-        kinds.append("d" if ("d" not in kinds and rng.random() < 0.4) else "s")
+        r = rng.random()
+        if "d" not in kinds and r < 0.35:
+            kinds.append("d")
+        elif r < 0.5:
+            kinds.append("x")
+        else:
+            kinds.append("s")
     trailing = bool(kinds) and kinds[-1] == "d" and rng.random() < 0.4
     names = VARNAMES + ["locale"]
     sides = []
+    # wildcard indices: 'x' takes two
+    widx = []
+    n = 0
+    for k in kinds:
+        widx.append(n)
+        n += 2 if k == "x" else 1
     for which in range(2):
         sd = Side()
         vars_avail = rng.sample(names, rng.randrange(0, 4))
         used = set()
         segs = []
-        for i, k in enumerate(kinds):
+        for j, k in enumerate(kinds):
+            i = widx[j]
             lo = 0
-            for _ in range(rng.choice([lo, 1, 1, 2]) if not (i == 0 and rng.random() < 0.1) else 0):
+            for _ in range(rng.choice([lo, 1, 1, 2]) if not (j == 0 and rng.random() < 0.1) else 0):
                 segs.append(_plain_atoms(rng, vars_avail, used, True))
             if k == "d":
                 # `**` may directly follow a variable (PATH_SPECIAL: "(?<![^/}])"), e.g. "{B}**/x" with B = "base/"
                 segs.append([("v", "B"), ("d", i)] if rng.random() < 0.12 else [("d", i)])
+            elif k == "x":
+                pre = []
+                r = rng.random()
+                if r < 0.3 and vars_avail:
+                    pre = [("v", rng.choice(vars_avail))]
+                elif r < 0.4:
+                    pre = [("t", rng.choice(["a", "foo", "x."]))]
+                post = [("t", rng.choice([".ftl", "-extra", ".properties", ".x", "_y"]))]
+                segs.append(pre + [("s", i), ("s", i + 1)] + post)
             else:
                 pre = []
                 post = []
@@ -335,7 +385,7 @@ def gen_pair(rng, rooted_ok=True):
                 segs.append(_plain_atoms(rng, vars_avail, used, True))
         if not segs:
             segs.append([("t", "x")])
-        if kinds and kinds[-1] == "d" and not trailing and segs[-1][-1] == ("d", len(kinds) - 1):
+        if kinds and kinds[-1] == "d" and not trailing and segs[-1][-1] == ("d", widx[-1]):
             segs.append([("t", rng.choice(["f.ftl", "x"]))])
         sd.segs = segs
         env = gen_env(rng, sd, names)
@@ -352,18 +402,120 @@ def gen_pair(rng, rooted_ok=True):
             sd.env, sd.withenv = base, w
         else:
             sd.env = env
-        if rooted_ok and rng.random() < 0.3 and not first_is_wildcard(sd):
+        if rooted_ok and rng.random() < 0.35 and not first_is_wildcard(sd):
             sd.root = rng.choice(ROOTS)
         sides.append(sd)
     fills = {}
-    for i, k in enumerate(kinds):
+    for j, k in enumerate(kinds):
+        i = widx[j]
         if k == "s":
             fills[i] = rng.choice(STAR_FILL)
-        elif trailing and i == len(kinds) - 1:
+        elif k == "x":
+            # greedy: the first of two adjacent stars takes everything
+            fills[i] = rng.choice(STAR_FILL)
+            fills[i + 1] = ""
+        elif trailing and j == len(kinds) - 1:
             fills[i] = rng.choice(["", "f", "x/y.ftl", "d/e/f", "a b"])
         else:
             fills[i] = "".join(rng.choice(DIRS) + "/" for _ in range(rng.choice([0, 1, 1, 2, 3])))
     return sides[0], sides[1], fills
+
+
+def reachable_vars(side):
+    """(direct, indirect) names the expansion of the pattern looks up"""
+    env = side.full_env()
+    direct, seen = [], []
+    uses_android = False
+    for a in side.atoms():
+        if a[0] == "v" and a[1] not in direct:
+            direct.append(a[1])
+        elif a[0] == "a":
+            uses_android = True
+
+    def walk(name):
+        if name in seen or name not in env:
+            return
+        seen.append(name)
+        v = env[name]
+        i = 0
+        while "{" in v[i:]:
+            i = v.index("{", i)
+            j = v.index("}", i)
+            walk(v[i + 1:j].strip())
+            i = j
+    for n in direct:
+        walk(n)
+    if uses_android:
+        walk("locale")
+    return direct, [n for n in seen if n not in direct]
+
+
+def gen_sequence(rng):
+    """a pair whose first side is rebound with `with_env` AFTER it has been used: returns
+    (a0, a1, b, fills, rebound key) where a1 = a0.with_env({key: new value}); the key is preferably one the pattern
+    uses only indirectly (through a nested variable or {android_locale})"""
+    for _ in range(50):
+        a0, b, fills = gen_pair(rng)
+        if a0.withenv is not None:
+            a0.env = a0.full_env()
+            a0.withenv = None
+        r = rng.random()
+        if r < 0.5:
+            # force the indirect use of `locale` through a nested variable
+            if "l" in a0.env or "locale" in [x[1] for x in a0.atoms() if x[0] == "v"]:
+                continue
+            a0.segs.insert(rng.randrange(len(a0.segs)), [("v", "l")])
+            if first_is_wildcard(a0):
+                a0.root = None
+            a0.env["l"] = rng.choice(["l10n/{locale}", "{locale}", "x-{ locale }-y", "{m}/q"])
+            if "{m}" in a0.env["l"]:
+                a0.env["m"] = "{locale}.d"
+            a0.env.setdefault("locale", rng.choice(LOCALES))
+        direct, indirect = reachable_vars(a0)
+        cands = indirect if (indirect and rng.random() < 0.8) else direct + indirect
+        cands = [c for c in cands if c != "B"]
+        if not cands:
+            continue
+        key = rng.choice(cands)
+        old = a0.env[key]
+        if "{" in old:
+            continue
+        feeds_locale = False
+        if "locale" in a0.env:
+            todo, seen = [a0.env["locale"]], set()
+            while todo:
+                v = todo.pop()
+                i = 0
+                while "{" in v[i:]:
+                    i = v.index("{", i)
+                    j = v.index("}", i)
+                    nm = v[i + 1:j].strip()
+                    if nm not in seen and nm in a0.env:
+                        seen.add(nm)
+                        todo.append(a0.env[nm])
+                    i = j
+            feeds_locale = key in seen
+        if key == "locale":
+            new = rng.choice([x for x in LOCALES if x != old])
+        elif feeds_locale:
+            # the value becomes (part of) a locale code: keep it a language code
+            new = rng.choice([x for x in ["fr", "nl", "ast", "de", "pt"] if x != old])
+        else:
+            new = rng.choice([x for x in ["other", "n.w", "zz-1", "q+q"] if x != old])
+        a1 = Side()
+        a1.segs = [list(sg) for sg in a0.segs]
+        a1.env = dict(a0.env)
+        a1.withenv = {key: new}
+        a1.root = a0.root
+        # the trailing segment check: inserting at the end must not follow a trailing `**`
+        try:
+            fl = b.normalize_fills(a0.normalize_fills(dict(fills)))
+            if a0.fill(fl) == a1.fill(fl):
+                continue
+        except Exception:
+            continue
+        return a0, a1, b, fl, key
+    return None
 
 
 def first_is_wildcard(side):
@@ -401,6 +553,10 @@ def mutate_paths(rng, side, fills, path):
         i = rng.randrange(len(path))
         if path[i] not in "/\n":
             out.append(("changed-char", path[:i] + ("#" if path[i] != "#" else "%") + path[i + 1:]))
+    if side.root is not None and side.root != "/" and path.startswith(side.root + "/"):
+        for r in alt_roots(side.root):
+            out.append(("root-meta", r + path[len(side.root):]))
+        out.append(("root-outside", side.root + "x" + path[len(side.root):]))
     return [(k, p) for k, p in out if "//" not in p[1:] or "//" in path[1:]]
 
 
